@@ -147,6 +147,26 @@ def candidates (s : St) (b : Book) (op : List String) (res : String) (obs : List
     let cands := if b.leaves.length ≤ 5 then cands else
       cands.map fun (b', r) => (match obsT with | some t => { b' with throughput := t } | none => b', r)
     some ((if b.leaves.length ≤ 5 then "propose." else "propose.manytips.") ++ res, cands)
+  | "LPROP" :: _ :: rest => do
+    -- the locked body of CreateLeaf alone (the unlocked look-ups were answered by an earlier book): the
+    -- vertex the call would seal is rebuilt from the tips it finds
+    let trx ← parseTrx (rest.take 6)
+    let cands := (tipOrders b []).map fun o1 =>
+      let g := b.getValidLeaves o1
+      let tip : Vertex := match g.left with
+        | some l =>
+          let r := g.right.getD l
+          { hash := 4000000000, signer := b.self, left := l.hash, right := r.hash,
+            weight := calcNewWeight l.weight r.weight, trx := trx, vok := true }
+        | none => default
+      let (b', r) := b.createLeafLocked trx o1 o1 tip
+      (b', resTag r)
+    some ("propose.locked." ++ res, cands)
+  | ["LADD", _, vn] => do
+    -- the locked body of addLeafMemorized alone
+    let v ← s.vertex (← vn.toNat?)
+    let (b', r) := b.addLeafLocked v 0
+    some ("add.locked." ++ resTag r, [(b', resTag r)])
   | ["ADD", _, vn] => do
     let v ← s.vertex (← vn.toNat?)
     let (b', r) := b.addLeaf v
